@@ -298,6 +298,8 @@ class Frame:
     unsupported: list = field(default_factory=list)
     closures: dict = field(default_factory=dict)  # name -> [closure ids]
     stores: list = field(default_factory=list)  # [(kind, receiver term/name, node, conds)]
+    locals: set = field(default_factory=set)
+    params: list = field(default_factory=list)
 
 
 _MUTATORS = {
@@ -598,8 +600,8 @@ def _bind_args(fnode, pargs, kwargs, is_method):
     return bind
 
 
-def _assigned_names(stmts) -> set[str]:
-    """Names (re)bound or mutated by statements (not descending into nested defs)."""
+def _assigned_names(stmts, mutations=True) -> set[str]:  # noqa: FBT002
+    """Names (re)bound -- and, if ``mutations``, mutated in place -- by statements."""
     out = set()
 
     def tgt(t):
@@ -610,7 +612,7 @@ def _assigned_names(stmts) -> set[str]:
                 tgt(e)
         elif isinstance(t, ast.Starred):
             tgt(t.value)
-        elif isinstance(t, (ast.Subscript, ast.Attribute)):
+        elif isinstance(t, (ast.Subscript, ast.Attribute)) and mutations:
             base = t
             while isinstance(base, (ast.Subscript, ast.Attribute)):
                 base = base.value
@@ -635,7 +637,7 @@ def _assigned_names(stmts) -> set[str]:
         elif isinstance(s, (ast.Import, ast.ImportFrom)):
             for a in s.names:
                 out.add((a.asname or a.name).split(".")[0])
-        elif isinstance(s, ast.Expr):
+        elif isinstance(s, ast.Expr) and mutations:
             v = s.value
             if (
                 isinstance(v, ast.Call)
@@ -698,12 +700,14 @@ class _Exec:
             allp.append(a.kwarg.arg)
         for n in allp:
             self.env[n] = (bind or {}).get(n, ("param", q, n))
-        self.locals = set(allp) | _assigned_names(fnode.body)
+        self.locals = set(allp) | _assigned_names(fnode.body, mutations=False)
+        self.fr.params = list(allp)
         # global / nonlocal declarations make names non-local
         for s in _all_stmts(fnode.body):
             if isinstance(s, (ast.Global, ast.Nonlocal)):
                 self.locals -= set(s.names)
                 self.fr.stores.append(("global-decl", tuple(s.names), s, ()))
+        self.fr.locals = set(self.locals)
 
     def finish(self):
         rets = self.fr.returns
@@ -865,14 +869,14 @@ class _Exec:
             # only the optional-import idiom occurs; execute body, note handlers
             self.fr.unsupported.append(("try", s))
             self.block(s.body)
-            for n in _assigned_names(s.handlers and [x for h in s.handlers for x in h.body] or []):
+            for n in sorted(_assigned_names(s.handlers and [x for h in s.handlers for x in h.body] or [])):
                 self.env[n] = ("unknown", "assigned in except handler")
             self.block(s.orelse)
             self.block(s.finalbody)
             return "fall", 0
         # while / with / match / ... : outside vocabulary
         self.fr.unsupported.append((type(s).__name__, s))
-        for n in _assigned_names([s]):
+        for n in sorted(_assigned_names([s])):
             self.env[n] = ("unknown", f"assigned in {type(s).__name__}")
         return "fall", 0
 
@@ -952,7 +956,7 @@ class _Exec:
             self.env.update(env1)
             self.conds.append(c)
             return "fall", 1
-        for k in set(env1) | set(env2):
+        for k in sorted(set(env1) | set(env2)):
             a, b = env1.get(k, UNDEF), env2.get(k, UNDEF)
             if k in base and a == spec_then.get(k) and b == spec_else.get(k):
                 self.env[k] = base[k]  # not touched by either branch
@@ -967,7 +971,7 @@ class _Exec:
         assigned = _assigned_names(s.body) | _assigned_names([ast.Assign(targets=[s.target], value=ast.Constant(0))])
         target_names = _assigned_names([ast.Assign(targets=[s.target], value=ast.Constant(0))])
         init = {}
-        for n in assigned - target_names:
+        for n in sorted(assigned - target_names):
             if self.is_module or n in self.locals:
                 init[n] = self.env.get(n, UNDEF)
                 self.env[n] = ("carried", lid, n)
@@ -986,7 +990,7 @@ class _Exec:
                 self.env[n] = init[n]
             else:
                 self.env[n] = ("loopout", lid, n)
-        for n in target_names:
+        for n in sorted(target_names):
             self.env[n] = ("loopout", lid, n)
         if s.orelse:
             self.block(s.orelse)
